@@ -64,10 +64,14 @@ class C03(Property):
             {"kind": "period", "period": 3, "quota": 0, "lims": 1, "keys": ["a"], "ops": [["take", 0, 0], ["take", 0, 0]]},
         ]
 
-    # go-zero's redis client wraps every command in a circuit breaker (shared per address) that
-    # starts rejecting at random once failures exceed 5 + accepts/2 in its 10 s window; that is
-    # outside the model, so every generated history keeps the number of failing commands <= 4.
+    # go-zero's redis client wraps every command in a circuit breaker (one per address) that
+    # starts rejecting at random once more than 5 (+ ~accepts/2) commands failed in its 10 s
+    # window; that is outside the model, so generated histories stay below it.  Measured on
+    # miniredis: a call during an outage = 1 failing command, a call on a garbage counter = 2
+    # (EVALSHA -> NOSCRIPT, then EVAL -> error), the first call of a run = 1 (NOSCRIPT); a monitor
+    # ping during an outage would be 1 more.
     FAIL_BUDGET = 4
+    TOKEN_FAIL_BUDGET = 3
 
     def _period_case(self, rng):
         period = rng.choice([1, 1, 2, 3, 5])
@@ -84,9 +88,10 @@ class C03(Property):
             if r < 0.68:
                 k = rng.randrange(len(keys))
                 if down or k in garbage:
-                    if fails >= self.FAIL_BUDGET:
+                    cost = 1 if down else 2
+                    if fails + cost > self.FAIL_BUDGET:
                         continue
-                    fails += 1
+                    fails += cost
                 ops.append(["take", rng.randrange(lims), k])
             elif r < 0.90:
                 p = period * 1000
@@ -126,7 +131,7 @@ class C03(Property):
                 size = rng.choice([1, 1, 1, 1, 0, 2, burst, burst + 1, rng.randint(0, burst + 1)])
                 i = rng.randrange(n)
                 if down and alive[i]:
-                    if fails >= self.FAIL_BUDGET:
+                    if fails >= self.TOKEN_FAIL_BUDGET:
                         continue
                     fails += 1
                     alive[i] = False
@@ -145,7 +150,7 @@ class C03(Property):
                     ops.append(["up"])
                     down = False
                     alive = [True] * n
-                elif outages < outages_allowed and fails < self.FAIL_BUDGET:
+                elif outages < outages_allowed and fails < self.TOKEN_FAIL_BUDGET:
                     ops.append(["down"])
                     down = True
                     outages += 1
